@@ -14,9 +14,15 @@ oracle (real code only, from the property text):
     a falsy result are missing;
   * a one-shot generator is advanced exactly n times, whatever checklines is;
   * create_db(data=<form>) gives the same projection (ids, columns, attributes, relations, dialect) for all forms;
-  * inspect.inspect(form, look_for, limit) equals independent counts over the first `limit` records.
+  * inspect.inspect(form, look_for, limit) equals independent counts over the first `limit` records - on every
+    call: each (look_for, limit) is inspected twice with the SAME caller-owned look_for list (second call on
+    another form), and with look_for omitted (the default) again and again in the same process.
 correspondence: `form`/`formdb` (GffModel.IterMore Input.run - the dispatch), `file`/`feats` (GffModel.Iter
 runFile/runFeatures), `peeklen` (items pulled by the peek), `inspect`.
+correspondence only (`directed`, `empty_create` - inputs outside the property's domain, never judged): inspect of
+start/end/stop on "." coordinates; inspect on files whose 10th/11th/12th line flips the dialect vote (inspect's
+window is checklines=10); inputs that yield no feature (empty / comments-only / FASTA-only file, a transform that
+drops everything): DataIterator yields nothing, create_db answers like the model's `create` (EmptyInputError).
 """
 import collections
 import gzip
@@ -369,6 +375,152 @@ def enc_inspect(result):
     return "ok %d %s" % (result["feature_count"], ";".join(parts) if parts else "_")
 
 
+def write_forms(ctx, name, lines, crlf=False):
+    """the three text forms of `lines` -> {form: (data, extra kwargs)}"""
+    text = "".join(l + ("\r\n" if crlf else "\n") for l in lines)
+    path = os.path.join(ctx.scratch, name)
+    with open(path, "w", encoding="utf-8", newline="") as fh:
+        fh.write(text)
+    with gzip.open(path + ".gz", "wt", encoding="utf-8", newline="") as fh:
+        fh.write(text)
+    return {"path": (path, {}), "gz": (path + ".gz", {}), "string": (text, {"from_string": True})}
+
+
+def empty_create(ctx, res, lines, cl, trname, tag, cmds, exp_out, tags, crlf=False, forms=("path", "gz", "string")):
+    """CORRESPONDENCE ONLY (the property excludes annotations without features): create_db on an input that yields
+    no feature - an empty or comments-only file, or a transform that drops every feature - against the model's
+    `create` (same answer or the same error kind, EmptyInputError on the real code)."""
+    import gffutils
+    import dbside
+    cfg = dbside.Cfg(strategy="error", transform=trname)
+    written = write_forms(ctx, "c13_%s.gff" % tag, lines, crlf)
+    for form in forms:
+        data, kw = written[form]
+        fn = transforms.ZOO[trname]
+        try:
+            db = gffutils.create_db(data, ":memory:", force=True, merge_strategy="error", verbose=False, checklines=cl,
+                                    transform=fn, **kw)
+            rep = "ok " + pyside.enc_dialect(db.dialect)
+        except Exception as ex:
+            rep = "err " + pyside.err_name(ex)
+        res.count("corr_only_create_db_without_features_" + rep.split(" ")[0] + ("_" + rep.split(" ")[1]
+                                                                                 if rep.startswith("err") else ""))
+        cmds.append(dbside.cmd_create(lines, cfg, checklines=cl))
+        exp_out.append(rep)
+        tags.append(("create_db(%s form) on an input that yields no feature (transform %s)" % (form, trname),
+                     repr((lines, cl, trname))))
+
+
+def im5_lines(k, nattr, reverse=False):
+    """k one-attribute lines of one style, then ONE line of the other style with `nattr` attributes (it outvotes the
+    k lines when it is inside the inspection window), then one more line of the first style"""
+    def one(i, name):
+        a = 'gene_id "%s";' % name if reverse else "ID=%s" % name
+        return "chr1\tsrc\tgene\t%d\t%d\t.\t+\t.\t%s" % (10 * i + 1, 10 * i + 5, a)
+    many = ";".join("k%d=v%d" % (j, j) for j in range(nattr)) if reverse else \
+        " ".join('k%d "v%d";' % (j, j) for j in range(nattr))
+    return [one(i, "g%d" % i) for i in range(k)] + ["chr1\tsrc\texon\t900\t950\t.\t+\t.\t" + many] + [one(k + 1, "last")]
+
+
+def directed(ctx, res, cmds, exp_out, tags):
+    """CORRESPONDENCE ONLY - inputs next to the property's domain that the generator never produces (found by mutating
+    the model: a wrong answer of the model on them went unnoticed).  Nothing here is judged by the oracle."""
+    from gffutils import inspect as ginspect
+    from gffutils import iterators
+    from gffutils.feature import feature_from_line
+    r = ctx.rng("c13-directed")
+
+    def run_inspect(lines, name, look, limit, forms, what):
+        flines = [l for l in lines if l and not l.startswith("#")]
+        written = write_forms(ctx, name, lines)
+        for form in forms:
+            if form in written:
+                data = written[form][0]
+            elif form == "list":
+                data = [feature_from_line(l) for l in flines]
+            else:
+                data = CountingGen([feature_from_line(l) for l in flines])
+            try:
+                got = enc_inspect(ginspect.inspect(data, look_for=list(look), limit=limit, verbose=False))
+            except Exception as ex:
+                got = "err " + pyside.err_name(ex)
+            res.count("corr_only_" + what)
+            cmds.append("inspect %s %s %s %s" % ("file" if form in written else "feats", ",".join(look) if look else "_",
+                                                 "none" if limit is None else str(limit), pyside.enc_list(lines)))
+            exp_out.append(got)
+            tags.append(("inspect.inspect(%s form) - %s" % (form, what), repr((lines, look, limit))))
+
+    # 1. inspect of a coordinate field on features whose start / end column is "." (Feature.start is None there)
+    looks = [["start"], ["end"], ["stop"], ["start", "end", "stop", "attribute_keys"], EXTRA_FIELDS[:],
+             ["feature_count", "start", "chrom"], ["featuretype", "stop"]]
+    for n in ((3, 7, 12) if not ctx.thorough else (1, 2, 3, 5, 7, 10, 11, 12, 15)):
+        ann = gen_ann(r, n)
+        m = len(ann.records)
+        idx = list(range(m))
+        r.shuffle(idx)
+        for j, i in enumerate(idx[:max(1, m // 2)]):
+            which = (j + n) % 3           # dot start / dot end / both
+            if which in (0, 2):
+                ann.records[i][0][3] = "."
+            if which in (1, 2):
+                ann.records[i][0][4] = "."
+        for look in looks:
+            for limit in (None, 1, m):
+                run_inspect(ann.lines(), "c13_dot.gff", look, limit, ("path", "gz", "list", "generator"),
+                            "inspect_coordinate_field_with_dot_start_or_end")
+
+    # 2. the inspection window of inspect() (DataIterator default checklines=10): k one-attribute lines and one line of
+    #    the other attribute style with >= 11 attributes as line k+1: inside the window it flips the dialect vote
+    for reverse in (False, True):
+        for k in ((9, 10, 11) if not ctx.thorough else (7, 8, 9, 10, 11, 12, 13)):
+            lines = im5_lines(k, r.randrange(11, 15), reverse)
+            if r.random() < 0.5:
+                lines = ["##gff-version 3", "#c"] + lines
+            written = write_forms(ctx, "c13_win.gff", lines)
+            fmts = [iterators.DataIterator(written["path"][0], checklines=c).dialect["fmt"] for c in (9, 10, 11)]
+            if len(set(fmts)) > 1:
+                res.count("corr_only_inspect_window_input_where_checklines_9_10_11_vote_differently")
+            for look in (["attribute_keys"], DEFAULT_LOOK[:], ["attribute_keys", "start"]):
+                for limit in (None, 10, 11, k + 1):
+                    run_inspect(lines, "c13_win.gff", look, limit, ("path", "gz", "list"),
+                                "inspect_dialect_vote_flipped_by_line_%s" % ("le_10" if k < 10 else str(k + 1)))
+
+    # 3. inputs without any feature: DataIterator yields nothing, create_db raises EmptyInputError - in every form
+    empties = [[], [""], ["#c"], ["##gff-version 3", "#c", ""], ["##FASTA", ">chr1", "ACGT"], ["", "", "##d1", "##d2"]]
+    for ei, lines in enumerate(empties):
+        for cl in (0, 1, 10):
+            for crlf in (False, True):
+                empty_create(ctx, res, lines, cl, "none", "emp", cmds, exp_out, tags, crlf)
+                written = write_forms(ctx, "c13_emp.gff", lines, crlf)
+                for form in ("path", "gz", "string", "list", "generator"):
+                    data, kw = written[form] if form in written else ([] if form == "list" else CountingGen([]), {})
+                    o = {"form": form}
+                    try:
+                        it = iterators.DataIterator(data, checklines=cl, **kw)
+                        o["features"] = list(it)
+                        o["dialect"] = it.dialect
+                    except Exception as ex:
+                        o["error"] = pyside.err_name(ex)
+                    res.count("corr_only_DataIterator_on_input_without_features")
+                    cmds.append("form %s %d none none %s" % (form, cl, pyside.enc_list(lines)))
+                    exp_out.append(enc_run(o))
+                    tags.append(("DataIterator(%s form) on an input without features" % form, repr((lines, cl, crlf))))
+            for kind, data in (("file", write_forms(ctx, "c13_emp.gff", lines)["path"][0]), ("feats", [])):
+                try:
+                    got = enc_inspect(ginspect.inspect(data, verbose=False))
+                except Exception as ex:
+                    got = "err " + pyside.err_name(ex)
+                cmds.append("inspect %s %s none %s" % (kind, ",".join(DEFAULT_LOOK), pyside.enc_list(lines)))
+                exp_out.append(got)
+                tags.append(("inspect.inspect on an input without features (%s)" % kind, repr(lines)))
+    # a transform that drops everything on exon-only input, and the constant-None transform on a one-line file
+    only_exons = ["chr1\tsrc\texon\t%d\t%d\t.\t+\t.\tgene_id \"g\"; transcript_id \"t\";" % (10 * i + 1, 10 * i + 5)
+                  for i in range(3)]
+    for trname in ("dropexon", "dropmut", "dropall"):
+        for cl in (0, 2, 10):
+            empty_create(ctx, res, only_exons, cl, trname, "emp", cmds, exp_out, tags)
+
+
 def check_annotation(ctx, res, ann, tag, r, cmds, exp_out, tags, heavy, crlf=False):
     """all checks for one annotation; appends to res and to the model command lists"""
     from gffutils import inspect as ginspect
@@ -492,7 +644,9 @@ def check_annotation(ctx, res, ann, tag, r, cmds, exp_out, tags, heavy, crlf=Fal
         for trname in trs:
             want = by_hand(trname, exp)
             if not want:
+                # outside the property's domain (nothing to import): correspondence only - see empty_create
                 res.count("db_skipped_empty_after_transform")
+                empty_create(ctx, res, env.lines, cl, trname, "%s_e" % tag, cmds, exp_out, tags, crlf)
                 continue
             ref = None
             for fi, form in enumerate(FORMS):
@@ -532,39 +686,61 @@ def check_annotation(ctx, res, ann, tag, r, cmds, exp_out, tags, heavy, crlf=Fal
                     res.oracle_failures.append(("create_db called the transform %d times for %d features"
                                                 % (o["ncalls"], n), inp))
 
+    # every annotation once with the transform that drops everything (never chosen above): correspondence only
+    empty_create(ctx, res, env.lines, cls[n % len(cls)], "dropall", "%s_e" % tag, cmds, exp_out, tags, crlf)
+
     # --- inspect -------------------------------------------------------------------------------------------------
+    # every (look_for, limit) is inspected TWICE in this process: the caller builds its look_for list once and passes
+    # the same list object to both calls (the second one on the next input form); `None` stands for "look_for
+    # omitted" (the default of inspect()), which every limit - and every annotation - uses again.  Both calls are
+    # judged alike: exact counts for what was asked for.
     subsets = []
     for k in range(len(DEFAULT_LOOK) + 1):
         subsets += [list(c) for c in itertools.combinations(DEFAULT_LOOK, k)]
     subsets += [[r.choice(EXTRA_FIELDS), "attribute_keys"], EXTRA_FIELDS[:], ["feature_count", "strand", "chrom"]]
+    subsets.append(None)
     limits = sorted(set([None, 0, 1, 2, n - 1, n, n + 1, n + 2, -1]) - {-2}, key=lambda x: (x is not None, x))
     iforms = ["path", "gz", "list", "generator", "featuredb"]
     for li, limit in enumerate(limits):
         if limit is not None and limit < -1:
             continue
         for si, look in enumerate(subsets):
+            omitted = look is None
+            asked = list(DEFAULT_LOOK) if omitted else list(look)
             form = iforms[(li + si) % len(iforms)] if not heavy else None
             for form in ([form] if form else iforms):
-                data, _, gen = env.make(form, 10, None)
-                inp = dict(base, form=form, look_for=look, limit=limit, inspect=True)
-                res.evaluations += 1
-                res.count("inspect_" + form)
-                try:
-                    got = ginspect.inspect(data, look_for=list(look), limit=limit, verbose=False)
-                except Exception as ex:
-                    res.oracle_failures.append(("inspect raised %s" % pyside.err_name(ex), inp))
-                    continue
-                want = expected_counts(exp, look, limit)
-                if got != want:
-                    res.oracle_failures.append(("inspect() does not report the exact counts of the features iterated",
-                                                dict(inp, expected=want, got=got)))
-                if limit is None or n > 1:
-                    res.nontriv((akey, "inspect", form, tuple(look), limit))
-                kind = "file" if form in ("path", "gz") else "feats"
-                cmds.append("inspect %s %s %s %s" % (kind, ",".join(look) if look else "_",
-                                                     "none" if limit is None else str(limit), L))
-                exp_out.append(enc_inspect(got))
-                tags.append(("inspect.inspect(%s form)" % form, repr((env.lines, look, limit))))
+                mine = list(asked)                  # the caller's list object, handed to both calls
+                second = iforms[(iforms.index(form) + 1 + si % 3) % len(iforms)]
+                for callno, fm in enumerate((form, second)):
+                    data, _, gen = env.make(fm, 10, None)
+                    inp = dict(base, form=fm, look_for=asked, look_for_omitted=omitted, limit=limit, inspect=True,
+                               call=callno + 1)
+                    res.evaluations += 1
+                    res.count("inspect_" + fm)
+                    res.count("inspect_call_%d%s" % (callno + 1, "_default_look_for" if omitted else ""))
+                    kw = {} if omitted else {"look_for": mine}
+                    try:
+                        got = ginspect.inspect(data, limit=limit, verbose=False, **kw)
+                    except Exception as ex:
+                        res.oracle_failures.append(("inspect raised %s" % pyside.err_name(ex), inp))
+                        continue
+                    want = expected_counts(exp, asked, limit)
+                    if got != want:
+                        res.oracle_failures.append((
+                            "inspect() does not report the exact counts of the features iterated"
+                            + (" (look_for omitted: the default, as in other calls of this process)" if omitted
+                               else "" if callno == 0 else " - second call with the same look_for list object"),
+                            dict(inp, expected=want, got=got, callers_look_for_list_now=list(mine))))
+                    if mine != asked:
+                        res.count("inspect_changed_the_callers_look_for_list")
+                    if limit is None or n > 1:
+                        res.nontriv((akey, "inspect", fm, tuple(asked), omitted, limit, callno))
+                    kind = "file" if fm in ("path", "gz") else "feats"
+                    cmds.append("inspect %s %s %s %s" % (kind, ",".join(asked) if asked else "_",
+                                                         "none" if limit is None else str(limit), L))
+                    exp_out.append(enc_inspect(got))
+                    tags.append(("inspect.inspect(%s form, call %d)" % (fm, callno + 1),
+                                 repr((env.lines, asked, limit))))
 
 
 def run(ctx):
@@ -573,7 +749,8 @@ def run(ctx):
     res.rule = ("annotations of n = 1..15 feature lines (GFF3 graphs and GTF transcripts in six dialect variants), all "
                 "seven input forms x checklines 0..n+2 x {none,id,dropexon,mut,dropmut,dropall}; create_db over all seven "
                 "forms for checklines in {0,1,n-1,n,n+2,10} x transforms; inspect over all 16 subsets of the default "
-                "look_for plus other fields x limits {None,0,-1,1,2,n-1..n+2}. non-trivial = distinct (annotation, form, "
+                "look_for plus other fields and the omitted (default) look_for x limits {None,0,-1,1,2,n-1..n+2}, each "
+                "twice with the same list object. non-trivial = distinct (annotation, form, "
                 "checklines, transform) with n >= 2, and distinct inspect calls")
     sizes = list(range(1, 16)) + [2, 11] if not ctx.thorough else \
         [1, 1, 2, 2, 3, 3, 4, 5, 6, 7, 8, 9, 10, 11, 12, 13, 14, 15] * 3
@@ -583,6 +760,7 @@ def run(ctx):
         if len(ann.records) < 1:
             continue
         check_annotation(ctx, res, ann, "a%d" % (i % 3), r, cmds, exp_out, tags, heavy=ctx.thorough, crlf=(i % 3 == 2))
+    directed(ctx, res, cmds, exp_out, tags)
     out = ctx.model(cmds)
     if out is not None:
         for m, e, (comp, inp) in zip(out, exp_out, tags):
@@ -594,7 +772,9 @@ def run(ctx):
         "line ends \\n and (every third annotation) \\r\\n in the path, gzip and string forms; a lone \\r splits lines in "
         "text mode but not in gzip's binary mode - outside the domain",
         "n >= 1: an empty annotation makes create_db raise EmptyInputError (and DataIterator yield nothing) in every "
-        "form - excluded, as are create_db runs whose transform drops every feature",
+        "form - excluded from the oracle, as are create_db runs whose transform drops every feature (both are "
+        "compared with the model only: same error kind)",
+        "inspect(): a caller that passes the same look_for list object to two calls asks for the same counts twice",
         "annotations are written in ONE dialect with at least two attributes per line (so the per-line inferred dialect, "
         "the voted dialect and the dialect carried by FeatureDB features agree - the hypothesis `SameMapping` of the "
         "theorem forms_equivalent); integer start <= end on every line (bool(feature) is len(feature) != 0)",
